@@ -4,12 +4,12 @@ go 1.18
 
 require (
 	github.com/IBM/fluent-forward-go v0.0.0
+	github.com/gorilla/websocket v1.4.2
 	github.com/tinylib/msgp v1.1.9
 )
 
 require (
 	github.com/google/uuid v1.3.0 // indirect
-	github.com/gorilla/websocket v1.4.2 // indirect
 	github.com/philhofer/fwd v1.1.2 // indirect
 )
 
